@@ -654,7 +654,13 @@ type c14Gen struct {
 	lines []string
 }
 
-func (g *c14Gen) key() string { return mkTok(genKey(g.r, g.keys)) }
+func (g *c14Gen) key() string {
+	if g.r.Intn(12) == 0 {
+		// a long key (its length does not fit one byte): 256..700 bytes, a few distinct ones
+		return fmt.Sprintf("@%d:%d", 256+44*g.r.Intn(11), 7)
+	}
+	return mkTok(genKey(g.r, g.keys))
+}
 func (g *c14Gen) val() string {
 	if g.r.Intn(8) == 0 {
 		return "-"
